@@ -749,6 +749,14 @@ fn to_list(ctx: &Context, top: &Number, list: &[&str]) -> Result<Vec<NumberParts
             ))));
         }
     }
+    if units
+        .iter()
+        .any(|x| x.value == Numeric::zero() || x.value == Numeric::Float(0.0))
+    {
+        return Err(QueryError::generic(
+            "Division by zero: a unit in the unit list is zero".to_string(),
+        ));
+    }
     let mut value = top.value.clone();
     let mut out = vec![];
     let len = units.len();
